@@ -287,7 +287,10 @@ def stepOracle (st : St) (ws : List String) (obs : Json) : St × List String :=
   let ignoredMissing := dedupS (st.ignoredMissing ++
     (p8k.filter (·.1 == "RevokeRequestEffective/mapping-to-missing-class")).map (·.2))
   let wait := wait.filter fun (h, rcn, _) => !(finished.contains (h, rcn)) && !(jisNull (jpath obs ["cas", h]))
-  let p9 := rpPreds obs objs (fun h => inSync h && !(syncPending obs h)) ignored ignoredMissing isAged
+  let settled : List String := match ws with
+    | ["settle", h, _] => [h]
+    | _ => []
+  let p9 := rpPreds obs objs (fun h => inSync h && !(syncPending obs h)) ignored ignoredMissing isAged settled
   ({ st with seen, revokeWait := wait, unsynced, ignoredRevokes := ignored, ignoredMissing, aged }, dedupS (p1 ++ p2 ++ p3 ++ p4 ++ p5 ++ p6 ++ p7 ++ p8 ++ p9))
 
 /-- Which property an oracle predicate belongs to. -/
